@@ -8,7 +8,10 @@ MANIFEST = dict(
          'every block is freed at most once (C03_free_once, unconditional, by counting ownership tokens); only pool blocks <= mallocMax are ever freed, never caller memory or private copies (C03_free_only_pool, C03_private_copy_never_freed, unconditional); '
          'caller memory is never written (C03_caller_untouched_partial, hypothesis: book only on an input buffer); a block is freed only when no chained node of any reader refers to it and every node struct is recycled at most once '
          '(C03_free_after_release_partial, C03_node_recycled_once_partial, under Cov: no WriteDirect split, see D4). '
-         'Tied to the code by the instrumented allocator: event log (allocation sequence numbers, so pool reuse cannot hide anything), per-node reference counts / blocks / origins compared op by op with the ledger model, checksums of caller memory.',
+         'Tied to the code by the instrumented allocator: event log (allocation sequence numbers, so pool reuse cannot hide anything), per-node reference counts / blocks / origins compared op by op with the ledger model, checksums of caller memory. '
+         'Implementation-side oracle on every Free: once, a pool block, no live view, no chained node on it afterwards, and - checked at the very moment of the Free - no node between the read cursor and the write node of any live buffer '
+         'with readable or pending bytes on it (Close of that buffer excepted). Ownership runs use one P so that linkedPool hands a recycled node struct to the next allocation; the generator includes a directed class '
+         '(multi-node input consumed node by node by exposing / non-exposing reads with connection-style Reads in between, new nodes taken, Release last).',
     note='Known finding D4 (WriteDirect split shares one block between an unmanaged head and a managed tail) is listed in known_findings.jsonl, excluded by an explicit per-call hypothesis and proved as a witness (C03_D4_witness). '
          'Correspondence is sampling. sync.Pool of node structs is modelled as a counter (recycled at most once); a struct is never reused by the model.',
     technique='Lean 4 invariant proofs (typing, token counting, reference counts) over an ownership ledger model + instrumented-allocator event and node-ledger correspondence', design='§6 C03')
